@@ -87,6 +87,23 @@ PROPS = {
         "trusted": T_VERUS,
         "not_covered": [],
     },
+    "C09": {
+        "v_units": ["range.py"],
+        "r": [("widgets", lambda n: n.startswith("range."))],
+        "claim": "layout of the range gadget for EVERY width 0..=256 (loop invariants, no bound): range_check_even emits exactly "
+                 "rce_rows(nb) (ceil(nb/8) selected rows, accumulators on D,C,B,A most-significant first, unselected carrier row, closing "
+                 "equality), range_check adds the lower/top split for odd widths, component_range_bits::<B> == range_check(B), "
+                 "component_range::<P> == range_check_even(min(2P,256)); lemma: both entry points emit identical rows for equal widths; "
+                 "range widget (prover quotient term, linearisation, verifier commitment term) == sum kappa^k * delta(quad differences).",
+        "technique": "contract-based deductive verification: Verus loop invariants on the real range_check_even/range_check (overlay) + "
+                     "ring/trace checker for the range widget",
+        "level_note": "Assumed: cut_le_bits (BitIterator8 bit extraction, 3 statements), BlsScalar::{to_bits,pow_of_2}, composer leaves. "
+                      "Not yet proved: honest accumulator VALUES and the interval lemma rows_sat <=> cv(w) < 2^nb.",
+        "design_ref": "DESIGN.md §4 C09",
+        "assumptions": A_VERUS + A_RING,
+        "trusted": T_VERUS + T_RING,
+        "not_covered": ["interval lemma (rows satisfiable iff value < 2^width)", "honest accumulator values"],
+    },
     "C15": {
         "v_units": ["capacity.py"],
         "claim": "capacity arithmetic of the compressed route: Compiler::max_constraints, CommitKey::{max_degree,truncate}, "
